@@ -2071,18 +2071,24 @@ class BaseInterpreter(Generic[TContext, TEvent]):
         """
         self._activation[state.id] = self._activation.get(state.id, 0) + 1
 
-    def _scope_event(self, event: Any, owner_id: str) -> Any:
+    def _scope_event(
+        self, event: Any, owner_id: str, epoch: Optional[int] = None
+    ) -> Any:
         """Stamps an engine-raised event with its owner's current activation.
 
         Args:
             event (Any): A `ScopedAfterEvent` / `ScopedDoneEvent` instance.
             owner_id (str): The state the event belongs to.
+            epoch (Optional[int]): The activation to stamp, when it was
+                captured earlier (a service reports long after it started).
 
         Returns:
             Any: The same event, stamped.
         """
         event.owner_id = owner_id
-        event.epoch = self._activation.get(owner_id, 0)
+        event.epoch = (
+            self._activation.get(owner_id, 0) if epoch is None else epoch
+        )
         return event
 
     def _is_stale_event(self, event: Any) -> bool:
